@@ -157,6 +157,10 @@ func (u *Unit) exec(fr *Frame, st *State, instr ssa.Instruction) {
 	case *ssa.Store:
 		u.store(fr, st, in.Addr, u.val(fr, st, in.Val), in.Pos())
 	case *ssa.FieldAddr:
+		if a, isA := in.X.(*ssa.Alloc); isA && isCellAlloc(a) {
+			fr.regs[in] = &CellFieldAddr{a, in.Field}
+			return
+		}
 		base := u.term(fr, st, in.X)
 		structT := ptrElem(in.X.Type())
 		s := structT.Underlying().(*types.Struct)
@@ -432,7 +436,16 @@ func (u *Unit) load(st *State, addr Val, elem types.Type, pos token.Pos) Val {
 			unsupp("local %s has no value here (lost at a join)", a.Alloc.Comment)
 		}
 		return v
+	case *CellFieldAddr:
+		sv, ok := st.cells[a.Alloc].(*StructVal)
+		if !ok || a.Field >= len(sv.Fields) {
+			unsupp("local record %s has no value here", a.Alloc.Comment)
+		}
+		return sv.Fields[a.Field]
 	case *AddrVal:
+		if fv, ok := u.loadLocVal(st, a.Map, a.Elem, a.Ptr); ok {
+			return fv
+		}
 		v := u.ctx.Define("ld", u.loadLoc(st, a.Map, a.Elem, a.Ptr))
 		u.assume(st, u.typeFacts(v, a.Typ))
 		u.assumeBorn(st, v)
@@ -455,23 +468,48 @@ func (u *Unit) store(fr *Frame, st *State, addrV ssa.Value, v Val, pos token.Pos
 }
 
 func (u *Unit) storeTo(st *State, addr Val, elem types.Type, v Val, pos token.Pos) {
-	if _, isCell := addr.(*CellAddr); !isCell {
+	_, isCell := addr.(*CellAddr)
+	_, isCellField := addr.(*CellFieldAddr)
+	if !isCell && !isCellField {
 		u.escape(st, v) // a pointer stored into memory becomes reachable from there
 	}
 	switch a := addr.(type) {
 	case *CellAddr:
 		st.cells[a.Alloc] = v
+	case *CellFieldAddr:
+		sv, ok := st.cells[a.Alloc].(*StructVal)
+		if !ok || a.Field >= len(sv.Fields) {
+			unsupp("local record %s has no value here", a.Alloc.Comment)
+		}
+		nf := append([]Val{}, sv.Fields...)
+		nf[a.Field] = v
+		st.cells[a.Alloc] = &StructVal{T: sv.T, Fields: nf}
 	case *AddrVal:
 		tv, ok := v.(*Term)
+		var fwdVal Val
 		if !ok {
 			if a.Elem == SFn {
 				tv = u.reifyFn(v)
+			} else if av, isAddr := v.(*AddrVal); isAddr && a.Elem == SPtr {
+				// the address of a struct field kept in a pointer field (an adaptor around a
+				// column): the map gets an opaque non-nil pointer, loads at the same place
+				// get the address back (loadLocVal), any other load of this map is refused
+				tv = u.ctx.FreshConst("fieldaddr", SPtr)
+				u.assume(st, Not(Eq(parr(tv), NilRef)))
+				u.addrMaps[a.Map] = true
+				fwdVal = av
 			} else {
 				unsupp("store of %T into field", v)
 			}
 		}
 		u.checkWrite(st, a.Map, a.Ptr, pos, "field store")
 		u.storeLoc(st, a.Map, a.Elem, a.Ptr, tv)
+		if fwdVal != nil {
+			if st.fwd == nil {
+				st.fwd = map[string]fwdEntry{}
+			}
+			st.fwd[a.Map] = fwdEntry{heap: st.heap[a.Map], ptr: a.Ptr.S, val: fwdVal}
+		}
 	case *Term:
 		u.nilCheck(st, a, pos, "store")
 		if s, ok := u.structOf(elem); ok {
@@ -940,6 +978,9 @@ func (u *Unit) typeAssert(fr *Frame, st *State, in *ssa.TypeAssert) Val {
 			unbox := u.ctx.Func("unbox!"+typeKey(in.AssertedType), []Sort{SIface}, sort)
 			t := u.ctx.Define("unbox", App(sort, unbox, x))
 			u.assume(st, Implies(ok, u.typeFacts(t, in.AssertedType)))
+			// an interface value is its dynamic type and value: boxing the value again gives it back
+			box := u.ctx.Func("box!"+typeKey(in.AssertedType), []Sort{sort}, SIface)
+			u.assume(st, Implies(ok, Eq(App(SIface, box, t), x)))
 			v = t
 		} else {
 			v = u.freshVal(st, in.AssertedType, "unboxed")
